@@ -148,3 +148,22 @@ Proof.
   - apply Forall_forall. intros s Hs. apply in_map_iff in Hs. destruct Hs as (o & <- & _). apply lwwset_build_wf.
   - intros s. rewrite !in_map_iff. split; intros (o & E & Ho); exists o; (split; [exact E | apply Heq; exact Ho]).
 Qed.
+
+(* ---- likewise the crate's LWWMap (values in the Max lattice) ---- *)
+Lemma lwwmap_build_wf ops : wf (lwwmap_sl max_sl) (lwwmap_build ops).
+Proof.
+  rewrite lwwmap_build_generic. apply (map_build_wf max_sl max_laws).
+  apply Forall_forall. intros [k [c [v|]]] _; exact I.
+Qed.
+
+Theorem lwwmap_replicas_converge (a : list mop) (l1 l2 : list (list mop)) :
+  (forall x, In x l1 <-> In x l2) ->
+  merge_all (lwwmap_sl max_sl) (lwwmap_build a) (map lwwmap_build l1)
+  = merge_all (lwwmap_sl max_sl) (lwwmap_build a) (map lwwmap_build l2).
+Proof.
+  intros Heq. apply (merge_all_converges (lwwmap_sl max_sl) (lwwmap_laws max_sl max_laws)).
+  - apply lwwmap_build_wf.
+  - apply Forall_forall. intros s Hs. apply in_map_iff in Hs. destruct Hs as (o & <- & _). apply lwwmap_build_wf.
+  - apply Forall_forall. intros s Hs. apply in_map_iff in Hs. destruct Hs as (o & <- & _). apply lwwmap_build_wf.
+  - intros s. rewrite !in_map_iff. split; intros (o & E & Ho); exists o; (split; [exact E | apply Heq; exact Ho]).
+Qed.
